@@ -123,11 +123,15 @@ Definition reg_safe (c : N) : bool :=
   ((48 <=? c) && (c <=? 57)) || ((65 <=? c) && (c <=? 90)) || ((97 <=? c) && (c <=? 122))
   || (c =? 45) || (c =? 46) || (c =? 95).
 Definition is_digit (c : N) : bool := (48 <=? c) && (c <=? 57).
+(* bytes no URL authority can contain: '?' ends the authority (url.ParseRequestURI puts the rest
+   into the query, so Host differs from the registry), space / control characters / DEL make
+   net/url fail outright *)
+Definition reg_never (c : N) : bool := (c =? 63) || (c <=? 32) || (c =? 127).
 Definition registry_verdict (reg : str) : option bool :=
   match reg with
   | [] => Some false
   | _ =>
-      if contains c_at reg then Some false
+      if contains c_at reg || existsb reg_never reg then Some false
       else match split_first c_colon reg with
            | None => if forallb reg_safe reg then Some true else None
            | Some (h, p) =>
